@@ -8,7 +8,7 @@ namespace FastOps
 
 theorem countWalk_canon (nv : Nat) (nb : Option Nat) (s : Slots) (b : Nat) :
     ∀ (k p acc fuel : Nat), p + k = s.length → k ≤ fuel →
-      countWalk (canon nv nb s) b fuel (nextFrom (occ s) p (s.length - p)) acc
+      countWalk (canon nv nb s) b fuel (nextFrom (occAt s) p (s.length - p)) acc
         = acc + countBond (s.drop p) b := by
   intro k
   induction k with
@@ -25,7 +25,7 @@ theorem countWalk_canon (nv : Nat) (nb : Option Nat) (s : Slots) (b : Nat) :
     have hdrop : s.drop p = s[p] :: s.drop (p + 1) := List.drop_eq_getElem_cons hpL
     cases hsp : slotAt s p with
     | none =>
-      have hnf : nextFrom (occ s) p (s.length - p) = nextFrom (occ s) (p + 1) (s.length - (p + 1)) := by
+      have hnf : nextFrom (occAt s) p (s.length - p) = nextFrom (occAt s) (p + 1) (s.length - (p + 1)) := by
         rw [hsub, nextFrom, occ_false_of_slotAt hsp]; simp
       have hsp' : s[p] = none := by
         unfold slotAt at hsp
@@ -34,7 +34,7 @@ theorem countWalk_canon (nv : Nat) (nb : Option Nat) (s : Slots) (b : Nat) :
       rw [hnf, hdrop, countBond_cons, hsp', ih (p + 1) acc fuel (by omega) (by omega)]
       simp [bondIs]
     | some op =>
-      have hnf : nextFrom (occ s) p (s.length - p) = some p := by
+      have hnf : nextFrom (occAt s) p (s.length - p) = some p := by
         rw [hsub, nextFrom, occ_of_slotAt hsp]; simp
       have hsp' : s[p] = some op := by
         unfold slotAt at hsp
@@ -46,7 +46,7 @@ theorem countWalk_canon (nv : Nat) (nb : Option Nat) (s : Slots) (b : Nat) :
       | succ fuel =>
         have hnot : ¬ p > (canon nv nb s).ops.length := by rw [length_canon]; omega
         simp only [countWalk, hnot, if_false, getNode_canon, hsp, Option.map_some]
-        have hnext : (canonNode s p op).nextP = nextFrom (occ s) (p + 1) (s.length - (p + 1)) := rfl
+        have hnext : (canonNode s p op).nextP = nextFrom (occAt s) (p + 1) (s.length - (p + 1)) := rfl
         have hop : (canonNode s p op).op = op := rfl
         rw [hnext, hop, ih (p + 1) _ fuel (by omega) (by omega), hdrop, countBond_cons, hsp']
         simp only [bondIs]
@@ -58,7 +58,7 @@ theorem getCount_canon_none (nv : Nat) (s : Slots) (b : Nat) :
   have h := countWalk_canon nv none s b s.length 0 0 s.length (by omega) (Nat.le_refl _)
   simp only [Nat.sub_zero, List.drop_zero, Nat.zero_add] at h
   simp only [getCount, canon, Option.map_none, getFirstP]
-  have hf : (canonEnds s).map (·.1) = nextFrom (occ s) 0 s.length :=
+  have hf : (canonEnds s).map (·.1) = nextFrom (occAt s) 0 s.length :=
     zipOpt_fst _ _ first_some_iff_last_some
   have : (canon nv none s).ops.length = s.length := length_canon nv none s
   simp only [canon, Option.map_none] at this h
